@@ -735,8 +735,33 @@ def gen_cases(rng, tier):
                 if c: c['profile'] = prof; cases.append(c)
     return cases
 
+WD_URI_VARIANTS = ['with-defaults:1.0?basic-mode=%s' % b for b in ('report-all', 'trim', 'explicit', 'report-all-tagged')] + [
+    'with-defaults:1.0?basic-mode=trim&also-supported=report-all-tagged', 'with-defaults:1.0?also-supported=trim,explicit&basic-mode=report-all',
+    'with-defaults:1.0?basic-mode=explicit&also-supported=report-all,report-all-tagged,trim']
+WD_OUTSIDE = ['report', 'all', 'tri', 'trim-', 'e', '-', '', ' ', 'report-all-tag', 'tagged', 'explici', 'bogus', 'trim,explicit', 'TRIM?', 'report-all report-all-tagged']
+
+def enum_with_defaults(ctx):
+    """A with-defaults value outside the RFC 6243 enumerated set is rejected locally, with nothing sent, whatever
+    with-defaults URI the server advertised (the set of values an advertised URI allows is C09's subject)."""
+    from harness import capture
+    for wd_uri in WD_URI_VARIANTS:
+        caps = [u for u in FULL_CAPS if 'with-defaults' not in u] + [A + wd_uri]
+        for profile in ('default', 'junos', 'nexus'):
+            m, sess = capture.make_manager(profile, caps)
+            for val in WD_OUTSIDE:
+                for op in ('get', 'get_config'):
+                    kw = dict(with_defaults=val) if op == 'get' else dict(source='running', with_defaults=val)
+                    r = capture.call(m, sess, op, (), kw)
+                    case = {'check': 'enum_with_defaults', 'profile': profile, 'server_wd': wd_uri, 'op': op, 'value': val}
+                    ctx.count(case, key=['ewd', wd_uri, profile, op, val]); ctx.hist('enum_wd_exc', r['exc'])
+                    if r['exc'] is None or r['sent']:
+                        ctx.fail(case, 'with_defaults=%r (outside the enumerated set) on a server advertising %s: exception %r, %d message(s) sent'
+                                 % (val, wd_uri, r['exc'], len(r['sent'])), sig=None, expected='rejected locally, nothing sent',
+                                 actual=[r['exc'], len(r['sent'])])
+
 def run(ctx):
     from vlib import paths
+    enum_with_defaults(ctx)
     for f in sorted(glob.glob(os.path.join(paths.CORPUS, 'C07', '*.json'))):
         run_cases(ctx, [json.load(open(f))['case']])
     escape_micro(ctx, ctx.rng, 300 if ctx.tier == 'quick' else 5000)
@@ -760,7 +785,18 @@ def reproduce(finding):
     r = impl_run(case)
     return oracle(case, r, case['profile'] in DEFAULT_NS_PROFILES, case['profile'] == 'iosxe') is not None
 
+def _replay_enum(c):
+    from harness import capture
+    caps = [u for u in FULL_CAPS if 'with-defaults' not in u] + [A + c['server_wd']]
+    m, sess = capture.make_manager(c['profile'], caps)
+    kw = dict(with_defaults=c['value']) if c['op'] == 'get' else dict(source='running', with_defaults=c['value'])
+    r = capture.call(m, sess, c['op'], (), kw)
+    print('case     :', c); print('expected : rejected locally, nothing sent'); print('actual   :', r['exc'], len(r['sent']), 'sent')
+    return r['exc'] is not None and not r['sent']
+
 def replay(doc):
+    if doc.get('case', {}).get('check') == 'enum_with_defaults':
+        return _replay_enum(doc['case'])
     case = doc['case']
     if 'op' not in case:
         print('case is a micro-check of the escaping model:', case); return True
